@@ -106,6 +106,9 @@ def run(tier):
             culprits = shrink(it, cp, j, backend)
             sig = f"crosstalk|{d[0]}|{it.kind}|{','.join(culprits) or 'combination'}"
             ck.violation(sig, dict(joint=it.render(), counterpart=cp, projection=pr.render(), backend=backend, joint_outcome=common.brief(j), projection_outcome=common.brief(o), difference=d[1], culprits=culprits))
+    if tier == "thorough":
+        from vlib import cov
+        cov.report(ck, "C06", jsrc)
     return ck.finish()
 
 
